@@ -517,6 +517,10 @@ for _f in sorted(_glob.glob("/verif/selftest/variants/b/C*-b*.diff")):
     for _p in [_own] + _CROSS.get(_name, []):
         case(_p, _p + "-agent-" + _name, "benign", "agent refactoring " + _name + ": " + _desc, patch="selftest/variants/b/" + _name + ".diff")
 
+# thirty unexported functions the rules know by name, renamed throughout (resolved by role, internal/rules/roles.go)
+for _p in ["C%02d" % i for i in range(1, 21)]:
+    case(_p, _p + "-b-rename", "benign", "thirty unexported anchor functions renamed throughout the module", patch="selftest/variants/all-b-rename.diff")
+
 case("C17", "C17-D17", "mutant", "historical defect D17 re-introduced: the cancelled waiter searches the queue by the address of its (possibly zero-size) entry",
      patch="selftest/regress/D17.diff", expect=[("C17.R8", "Acquire", "own position")])
 
